@@ -20,28 +20,42 @@ TRUSTED = ["Coq 8.16.1 kernel + vm_compute", "Rust executor /verif/harness (Rat 
            "hand-written Gallina model coq/Model/Tridiag.v tied to src/tridiagonal.rs by differential execution (Rat vs Qc exact incl. panic class "
            "and refusal message code; f64/Complex vs primitive floats)"]
 ASSUMPTIONS = ["Rust semantics of Vec/usize as modelled (checked indexing, debug overflow checks)",
-               "thomas_dominant_never_refuses is stated over Coq's reals and uses the standard-library real-number axioms (sig_forall_dec, functional_extensionality_dep); every other theorem is closed under the global context",
+               "thomas_dominant_never_refuses, thomas_backward_error and thomas_dominant_backward_stable are stated over Coq's reals and use the "
+               "standard-library real-number axioms (sig_forall_dec, functional_extensionality_dep); every other theorem is closed under the global context",
                "the sampled cases are where model and code were compared; the theorems are about the model",
-               "f64 backward stability for diagonally dominant systems is searched (1e-11 normwise), not proved"]
-UNPROVED = ["backward stability of the f64/Complex<f64> instantiation of Thomas on diagonally dominant systems (tie + search only)",
+               "f64 backward stability for diagonally dominant systems: proved in the standard model of rounding (relative error u per operation, no "
+               "underflow/overflow), searched (1e-11 normwise) on the IEEE instance that is tied to the implementation"]
+UNPROVED = ["backward stability of the IEEE binary64 / Complex<f64> instance itself: thomas_backward_error and thomas_dominant_backward_stable are proved in the "
+            "standard model of floating-point arithmetic (arbitrary real operations with relative error <= u per operation, no underflow/overflow) for the same "
+            "Gallina function tsolve; that binary64 (u = 2^-53) satisfies that model away from underflow/overflow is textbook and not re-proved here, and the "
+            "complex operators are not covered by it.  The IEEE instance is tied bit-for-bit to the implementation and searched",
+            "in the rounding model, that a diagonally dominant system is never REFUSED (proved over the exact reals: thomas_dominant_never_refuses; in the "
+            "rounding model the theorems speak of the answer whenever solve answers)",
+            "accuracy of the f64 det (searched: 1e-11 * perm|T|)",
             "operand non-mutation / owned=borrowed product forms are run-time observations of the executor"]
 
 MANIFEST = dict(
     text=("Theorems for every n >= 1 and every entry value about the three-list Gallina model of src/tridiagonal.rs (any arithmetic "
           "unless stated): constructors store well-shaped diagonals and refuse ill-shaped ones; index is the dense twin on the three "
-          "diagonals and Panic Guard elsewhere; IndexMut changes exactly the addressed entry or refuses; convert and transpose equal the "
-          "dense twin; neg/+/-/scalar*/ (ring laws) and scalar division (field laws) are the same operations on the dense twin; the "
-          "matrix-vector product with the repaired n = 1 branch is the dense twin times the vector; det equals mathcomp's \\det of the "
-          "dense twin over every field (via the continuant recurrence, which holds for any arithmetic) and the product of the Thomas "
-          "pivots; Thomas solve over an exact field is either Ok u with dense(T)*u = r and every pivot non-zero, or Panic Guard at the "
-          "first zero pivot, never anything else.  The same definitions are run against the implementation for n = 1..12 over Rat "
-          "(exact; panic class and refusal message compared), f64 and Complex<f64> (bit-compared with Coq's primitive floats), and a dense "
-          "Fraction reference searches for a failing input."),
+          "diagonals and Panic Guard elsewhere; IndexMut (single writes and any history of writes) changes exactly the addressed entry or "
+          "refuses; convert and transpose equal the dense twin; neg/+/-/scalar* (ring laws) and scalar division (field laws) are the same "
+          "operations on the dense twin; the matrix-vector product with the repaired n = 1 branch is the dense twin times the vector (the "
+          "pre-repair product panics on every 1x1 input); det equals mathcomp's \\det of the dense twin over every field (via the continuant "
+          "recurrence, which holds for any arithmetic) and the product of the Thomas pivots; Thomas solve over an exact field is either Ok u "
+          "with dense(T)*u = r and every pivot non-zero, or Panic Guard at the first zero pivot, never anything else; over any arithmetic "
+          "whose division answers for a non-zero divisor (f64, Complex<f64>) it is Ok with n components or that refusal, never a "
+          "bounds/underflow/division panic, and whatever it answers satisfies the local recurrences of the algorithm (thomas_trace); over the "
+          "reals a strictly diagonally dominant system is never refused; in the standard model of floating-point arithmetic (relative error "
+          "u <= 1/64 per operation) the computed x solves (T+dT)x = r exactly with |dT| <= u(3|a|, 5|b|+9|a*gamma|, 5|c|), and |gamma| <= 1, "
+          "i.e. |dT| = O(u)|T|, for diagonally dominant T (with margin).  The same definitions are run against the implementation for "
+          "n = 1..12 over Rat (exact; panic class and refusal message compared), f64 and Complex<f64> (bit-compared with Coq's primitive "
+          "floats), and a dense Fraction reference searches for a failing input."),
     note=("Proved: all of the above about the model.  Tied/searched only: that the model is the code (differential execution on every run); "
-          "backward stability of the f64/Complex<f64> instance of Thomas on diagonally dominant systems (oracle bound 1e-11 normwise) and "
-          "the accuracy of the f64 det (oracle bound 1e-11 * perm|T|); operand non-mutation and owned = borrowed operator forms (observed by "
-          "the executor).  T += s / T -= s are specified on the stored (in-band) elements."),
-    technique="Coq proof over an abstract ring/field + mathcomp bridge for det + model/implementation differential execution (vm_compute vs Rust executor)",
+          "backward stability of the IEEE f64/Complex<f64> instance itself (the stability theorems are in the standard model of rounding, no "
+          "underflow/overflow; oracle bound 1e-11 normwise on the IEEE instance) and the accuracy of the f64 det (oracle bound 1e-11 * perm|T|); "
+          "operand non-mutation and owned = borrowed operator forms (observed by the executor).  T += s / T -= s are specified on the stored "
+          "(in-band) elements."),
+    technique="Coq proof over an abstract ring/field and over the reals (rounding-error analysis) + mathcomp bridge for det + model/implementation differential execution (vm_compute vs Rust executor)",
     design="7 (C05)")
 
 NMAX = 12
